@@ -45,6 +45,16 @@ type entity struct {
 
 // cmdCoherence checks the obligations exported by Schema.tla (ENTITIES lines) and the generic
 // registry/type obligations on every message of the linked packages.
+// surfaceEntry is one exported identifier of a linked generated package (filled by surface_gen.go,
+// which the driver writes from the names protogen assigns to the request's entities).
+type surfaceEntry struct {
+	Kind, Full, Pkg, Go string
+	Num                 int32
+	V                   any
+}
+
+var surface []surfaceEntry
+
 func cmdCoherence(args []string) {
 	fs := flag.NewFlagSet("coherence", flag.ExitOnError)
 	in := fs.String("in", "", "ENTITIES lines exported by Schema.tla")
@@ -362,7 +372,57 @@ func cmdCoherence(args []string) {
 		walkM(fd.Messages())
 		return true
 	})
-	b, _ := json.Marshal(map[string]any{"summary": true, "entities": entities, "files": files, "types": types, "checks": checks, "bad": bad})
+	// ---- (4) the exported Go identifiers denote the entities their names say (surface_gen.go:
+	// names by protoc-gen-go's rules computed from the request; values taken from the packages)
+	for _, e := range surface {
+		id := e.Pkg + "." + e.Go
+		switch e.Kind {
+		case "message":
+			m, ok := e.V.(proto.Message)
+			ck(ok, "surface:message", id, "not a proto.Message")
+			if ok {
+				got := m.ProtoReflect().Descriptor().FullName()
+				ck(string(got) == e.Full, "surface:message", id, fmt.Sprintf("Go type denotes %s, the schema entity is %s", got, e.Full))
+				mt, err := protoregistry.GlobalTypes.FindMessageByName(protoreflect.FullName(e.Full))
+				if err == nil {
+					ck(reflect.TypeOf(mt.Zero().Interface()) == reflect.TypeOf(e.V), "surface:message", id, fmt.Sprintf("registry maps %s to Go type %T", e.Full, mt.Zero().Interface()))
+				}
+			}
+		case "enum":
+			en, ok := e.V.(protoreflect.Enum)
+			ck(ok, "surface:enum", id, "not a protoreflect.Enum")
+			if ok {
+				got := en.Descriptor().FullName()
+				ck(string(got) == e.Full, "surface:enum", id, fmt.Sprintf("Go type denotes %s, the schema entity is %s", got, e.Full))
+			}
+		case "enumval":
+			en, ok := e.V.(protoreflect.Enum)
+			ck(ok, "surface:enumval", id, "not a protoreflect.Enum")
+			if ok {
+				ck(string(en.Descriptor().FullName()) == e.Full && int32(en.Number()) == e.Num, "surface:enumval", id,
+					fmt.Sprintf("constant is %s(%d), the schema says %s(%d)", en.Descriptor().FullName(), en.Number(), e.Full, e.Num))
+			}
+		case "ext":
+			xt, ok := e.V.(protoreflect.ExtensionType)
+			ck(ok, "surface:ext", id, "not a protoreflect.ExtensionType")
+			if ok {
+				got := xt.TypeDescriptor().FullName()
+				ck(string(got) == e.Full, "surface:ext", id, fmt.Sprintf("variable denotes extension %s, its name says %s", got, e.Full))
+				rt, err := protoregistry.GlobalTypes.FindExtensionByName(protoreflect.FullName(e.Full))
+				ck(err == nil && rt == xt, "surface:ext", id, fmt.Sprintf("the registry's extension type for %s is not this variable (%v)", e.Full, err))
+				d, err := protoregistry.GlobalFiles.FindDescriptorByName(protoreflect.FullName(e.Full))
+				if err == nil {
+					xd, _ := d.(protoreflect.ExtensionDescriptor)
+					ck(xd != nil && xt.TypeDescriptor().Descriptor() == xd, "surface:ext", id, "TypeDescriptor().Descriptor() is not the file's descriptor")
+					if xd != nil {
+						ck(xt.TypeDescriptor().ContainingMessage().FullName() == xd.ContainingMessage().FullName() && xt.TypeDescriptor().Number() == xd.Number(),
+							"surface:ext", id, fmt.Sprintf("extends %s field %d, the schema says %s field %d", xt.TypeDescriptor().ContainingMessage().FullName(), xt.TypeDescriptor().Number(), xd.ContainingMessage().FullName(), xd.Number()))
+					}
+				}
+			}
+		}
+	}
+	b, _ := json.Marshal(map[string]any{"summary": true, "entities": entities, "files": files, "types": types, "checks": checks, "bad": bad, "surface": len(surface)})
 	w.Write(b)
 	w.WriteByte('\n')
 }
